@@ -281,6 +281,17 @@ def refine_config(desc, env):
             top.setdefault(rng.choice(allfired), {"disable": False})
         else:
             top.setdefault("global", {}).setdefault("indent_size", 2)
+    if rng.random() < 0.5:
+        # severities of rules that really report here: explicit built-in names and user-defined
+        # levels of both types (docs/rule_severity.rst)
+        top = cfg.setdefault("rule", {})
+        for u in rng.sample(allfired, min(len(allfired), rng.randint(1, 3))):
+            sev = rng.choice(["Error", "Warning", "Critical", "Future"])
+            top.setdefault(u, {})["severity"] = sev
+            if sev == "Critical":
+                cfg.setdefault("severity", {})["Critical"] = {"type": "error"}
+            if sev == "Future":
+                cfg.setdefault("severity", {})["Future"] = {"type": "warning"}
     use_list = rng.random() < 0.35 and not desc["meta"].get("glob") and not desc["meta"].get("dup")
     head, args = split_argv(desc)
     if use_list:
